@@ -26,6 +26,9 @@ FINISH = dict(level="proof",
 KEY_SWALLOW = "label-with-shift-prefix-after-operand"
 KEY_SXTX = "sxtx-extend"
 KEY_CONDSPACE = "condition-code-followed-by-space"
+KEY_DIRCOMMENT = "directive-comment-with-comma"
+# finding key -> field of the model's `fixes` record (Model/ParseA64.v): the repair that removes the finding
+FIX_OF_KEY = {KEY_SWALLOW: "word", KEY_CONDSPACE: "cond", KEY_SXTX: "sxtx", KEY_DIRCOMMENT: "dir"}
 
 
 def parser():
@@ -34,13 +37,13 @@ def parser():
 
 
 # ------------------------------------------------------------------ round-trip stream
-def tree_shard(cases):
+def tree_shard(cases, cfg):
     rows = []
     for c in cases:
         rows.append("(%s, %s, %s, %s, %s, %s, %s)" % (
             c["coq"], G.lay_coq(c["lay"]), L.coq_str(c["trail"]), L.coq_str(c["line"]),
             L.coq_str(c["real"]), L.coq_str(c["expected"]), G.cb(c["partial_ok"])))
-    return L.SHARD_HEAD + """From OV Require Import Model.SyntaxA64.
+    return L.SHARD_HEAD + "Definition cfg : fixes := %s.\n" % L.cfg_coq(cfg) + """From OV Require Import Model.SyntaxA64.
 Definition cases : list (wline * list string * string * string * string * string * bool) := [
 %s ].
 Definition c_tree (c : wline * list string * string * string * string * string * bool) := match c with (t,_,_,_,_,_,_) => t end.
@@ -50,34 +53,34 @@ Definition c_line (c : wline * list string * string * string * string * string *
 Definition c_real (c : wline * list string * string * string * string * string * bool) := match c with (_,_,_,_,r,_,_) => r end.
 Definition c_exp (c : wline * list string * string * string * string * string * bool) := match c with (_,_,_,_,_,e,_) => e end.
 Definition c_part (c : wline * list string * string * string * string * string * bool) := match c with (_,_,_,_,_,_,p) => p end.
-Definition g_gen c := andb (wline_okb (negb (c_part c)) (c_tree c)) (andb (layout_okb (c_lay c) (c_trail c) (c_tree c))
-  (if c_part c then cond_tight (c_lay c) (c_trail c) (c_tree c) else true)).
+Definition g_gen c := andb (wline_okb (if c_part c then cfg else fx_all) (c_tree c)) (andb (layout_okb (c_lay c) (c_trail c) (c_tree c))
+  (if c_part c then cond_tight cfg (c_lay c) (c_trail c) (c_tree c) else true)).
 Definition g_render c := String.eqb (render (c_lay c) (c_trail c) (c_tree c)) (c_line c).
 Definition g_mirror c := String.eqb (show_pline (denote (c_tree c))) (c_exp c).
 Definition g_model c :=
-  if andb (negb (c_part c)) (String.eqb (c_real c) (c_exp c)) then true   (* a refuted construct on which the tree under test satisfies the property (defect repaired) *)
-  else match parse_line (c_line c) with
+  if andb (negb (c_part c)) (String.eqb (c_real c) (c_exp c)) then true   (* a line outside the sub-language of cfg on which the implementation nevertheless satisfies the property *)
+  else match parse_line cfg (c_line c) with
   | Parsed p => String.eqb (show_pline p) (c_real c)
   | Unm => negb (c_part c)
   | Rej => prefix_of "REJECT" (c_real c)
   end.
 Definition g_thm c :=
-  if c_part c then String.eqb (show_result (parse_line (c_line c))) (show_pline (denote (c_tree c))) else true.
+  if c_part c then String.eqb (show_result (parse_line cfg (c_line c))) (show_pline (denote (c_tree c))) else true.
 Definition failing (g : _ -> bool) : string :=
   idxs (fun i => match nth_error cases i with Some c => negb (g c) | None => true end) (length cases).
 Eval vm_compute in (failing g_gen ++ "|" ++ failing g_render ++ "|" ++ failing g_mirror ++ "|" ++ failing g_model ++ "|" ++ failing g_thm).
 """ % ";\n".join(rows)
 
 
-def gen_cases(ctx, n, p):
+def gen_cases(ctx, n, p, cfg):
     cases = []
     for i in range(n):
         full = ctx.rng.random() < 0.12
-        ln = G.gen_line(ctx.rng, full=full)
+        ln = G.gen_line(ctx.rng, full=full, cfg=cfg)
         lay, trail = G.gen_layout(ctx.rng, ln.toks)
         line = G.render(ln.toks, lay, trail)
         real = L.real_parse(p, line)
-        if G.cond_spaced(ln.toks, lay, trail):
+        if G.cond_spaced(ln.toks, lay, trail) and not cfg["cond"]:
             ln.tags.add(KEY_CONDSPACE)
             ln.partial_ok = False
         cases.append(dict(coq=ln.coq, lay=lay, trail=trail, line=line, real=real, expected=ln.expected,
@@ -106,12 +109,12 @@ def oracle_roundtrip(ctx, cases):
     return bad
 
 
-def run_tree_stream(ctx, p, n):
-    cases = gen_cases(ctx, n, p)
+def run_tree_stream(ctx, p, n, cfg):
+    cases = gen_cases(ctx, n, p, cfg)
     for c in cases[:3]:
         ctx.sample({"line": c["line"], "implementation": c["real"]})
     bad = oracle_roundtrip(ctx, cases)
-    shards = [(("c10_tree_%03d" % k), tree_shard(cases[i:i + 400])) for k, i in enumerate(range(0, len(cases), 400))]
+    shards = [(("c10_tree_%03d" % k), tree_shard(cases[i:i + 400], cfg)) for k, i in enumerate(range(0, len(cases), 400))]
     res = ctx.coq_eval_many(shards, timeout=900)
     names = ["generator/well-formedness", "render mirror", "denote mirror", "model = implementation", "round-trip theorem instance"]
     fails = {nm: [] for nm in names}
@@ -150,13 +153,14 @@ def mutate(rng, toks):
             j = rng.randrange(len(toks))
             toks[i], toks[j] = toks[j], toks[i]
         else:
-            toks.insert(i, rng.choice([G.P(c) for c in ",[]{}#!-/:"] + [G.W("lsl"), G.W("x3"), G.W("7"), G.W("sp")]))
+            toks.insert(i, rng.choice([G.P(c) for c in ",[]{}#!-/:"] + [G.W("lsl"), G.W("x3"), G.W("7"), G.W("sp"),
+                                                                        G.W("sxtx"), G.W("ne"), G.W("LSLx"), G.W("uxtw3")]))
     # a comment token only survives at the end of the line
     toks = [t for k, t in enumerate(toks) if t[0] != "C" or k == len(toks) - 1]
     return toks
 
 
-def run_malformed(ctx, p, base, n):
+def run_malformed(ctx, p, base, n, cfg):
     cases = []
     while len(cases) < n:
         c = ctx.rng.choice(base)
@@ -168,7 +172,7 @@ def run_malformed(ctx, p, base, n):
         if line.strip() == "":
             continue
         cases.append((line, L.real_parse(p, line)))
-    shards = [("c10_mal_%03d" % k, L.line_shard(cases[i:i + 400])) for k, i in enumerate(range(0, len(cases), 400))]
+    shards = [("c10_mal_%03d" % k, L.line_shard(cases[i:i + 400], cfg)) for k, i in enumerate(range(0, len(cases), 400))]
     res = ctx.coq_eval_many(shards, timeout=900)
     bad, unm, rej, par, broken_out = [], 0, 0, 0, []
     for k, (ok, out) in enumerate(res):
@@ -200,7 +204,7 @@ def py_blank(s):
     return all(ch in "\t\n\x0b\x0c\r\x1c\x1d\x1e\x1f \x85\xa0" for ch in s)
 
 
-def run_files(ctx, p, base, n):
+def run_files(ctx, p, base, n, cfg):
     good = [c for c in base if c["real"] == c["expected"] and not c["real"].startswith("REJECT")]
     files = []
     for _ in range(n):
@@ -234,7 +238,7 @@ def run_files(ctx, p, base, n):
                           % (len(got), [a for a, _, _ in got][:8], [a for a, _ in want][:8]), {"content": content, "start": start})
         rows.append("(%s, %d, [%s])" % (L.coq_str(content), start,
                                         "; ".join("(%d, %s, %s)" % (a, L.coq_str(b), L.coq_str(c)) for a, b, c in got)))
-    text = L.SHARD_HEAD + """
+    text = L.SHARD_HEAD + "Definition cfg : fixes := %s." % L.cfg_coq(cfg) + """
 Definition files : list (string * nat * list (nat * string * string)) := [
 %s ].
 Definition same (f : fline) (e : nat * string * string) : bool :=
@@ -244,7 +248,7 @@ Definition same (f : fline) (e : nat * string * string) : bool :=
 Fixpoint all2 (a : list fline) (b : list (nat * string * string)) : bool :=
   match a, b with [], [] => true | x :: a', y :: b' => andb (same x y) (all2 a' b') | _, _ => false end.
 Definition okf (c : string * nat * list (nat * string * string)) : bool :=
-  match c with (content, start, e) => all2 (parse_file content start) e end.
+  match c with (content, start, e) => all2 (parse_file cfg content start) e end.
 Eval vm_compute in (idxs (fun i => match nth_error files i with Some c => negb (okf c) | None => true end) (length files)).
 """ % ";\n".join(rows)
     ok, out, dt = ctx.coq_eval("c10_files", text, timeout=900)
@@ -267,10 +271,18 @@ PROBES = [
     ".L3:", "foo: // bar", ".text", ".align 4 // c", "\t.p2align 4,,15", "# LLVM-MCA-BEGIN", "cbz x1, loop_lsl",
     "add x1,, x2", "add x1 x2", "x 1", "mov x0, #010", "ldr x0, [x1, x2, lsr #3]", "ldr x0, [x1], x2", "ldr x0, [#8]",
     "fmov d0, #1.5e3", "mov x0, 0X10", "1:", ".word 4 5, 6", "ldr x0, [SP, #-0x10]!", "ldr x0, [x1, x2, LSL 2]",
+    # shapes touched by the four repairs (patches/C10-fix-*.diff), on either side of each
+    "cbz x1, lsl", "cbz x1, LSL_2", "tbnz w0, #3, lsr_x", "tbnz w0, #3, lsr", "add x0, x1, x2, lsl#2", "add x0, x1, x2, lsl2",
+    "ldr x0, [x1, x2, lsl3]", "ldr x0, [x1, x2, lslx #3]", "ldr x0, [x1, x2, foo #3]", "ldr x0, [x1, x2, sxtx]", "ldr x0, [x1, x2, SXTX 2]",
+    "ldr x0, [x1, x2, sxtx #3]!", "cbz x1, sxtx_l", "add x0, x1, w2, sxtx #1", "ldr z0, [x0, #1, mul vl]", "cbz x0, mul",
+    "csel x0, x1, x2, ne ", "csel x0, x1, x2, NE\t// c", "ccmp x0, x1, ne , #4", "csel x0, x1, x2, next ", "csel x0, x1, x2, #ne ",
+    "b.ne lo ", "cbz x1, lo ", "ne x1, x2", "al ", "ne : // c", "ldr x0, [x1, ne ]", "ldr x0, [x1, x2, ne #3]", "fmov d0, 1.5 eq ", "mov p0/mi , x1",
+    "csel x0, x1, ne x2", "csel x0, eq , ne , hi ", ".word ne // a,b", ".word foo // abc", ".word foo, bar // a,b", ".set x, y // c, d",
+    ".word foo//a,b", ".word 4 // a,b", ".globl main // x", ".word foo , // a,b", ".word _foo // a,b",
 ]
 
 
-def run_probes(ctx, p):
+def run_probes(ctx, p, cfg):
     cases = [(l, L.real_parse(p, l)) for l in PROBES]
     d = os.path.join(vlib.VERIF, "corpus", "C10")
     if os.path.isdir(d):
@@ -278,7 +290,7 @@ def run_probes(ctx, p):
             for l in open(os.path.join(d, fn)).read().split("\n"):
                 if l.strip():
                     cases.append((l, L.real_parse(p, l)))
-    ok, out, dt = ctx.coq_eval("c10_probes", L.line_shard(cases), timeout=600)
+    ok, out, dt = ctx.coq_eval("c10_probes", L.line_shard(cases, cfg), timeout=600)
     if not ok:
         ctx.obligation("probe shard evaluates", "correspondence", False, out[0][-2000:])
         return
@@ -288,21 +300,31 @@ def run_probes(ctx, p):
                    "" if not b else "first: %r -> %s" % b[0])
 
 
-WITNESSES = [   # the refutation witnesses of Props/C10.v, replayed on the implementation on every run
+WITNESSES = [   # the refutation witnesses of Props/C10.v (first of each key) and a second line per defect, replayed on every run
     ("cbz x1, lsl_loop", "m=Scbz|l=N|d=N|o=R:x,1,-,-,-,-;L:lsl_loop|c=N", KEY_SWALLOW),
+    ("tbnz w0, #3, lsr_x", "m=Stbnz|l=N|d=N|o=R:w,0,-,-,-,-;I:int,3;L:lsr_x|c=N", KEY_SWALLOW),
     ("csel x0, x1, x2, ne // c", "m=Scsel|l=N|d=N|o=R:x,0,-,-,-,-;R:x,1,-,-,-,-;R:x,2,-,-,-,-;C:NE|c=Sc", KEY_CONDSPACE),
+    ("csel x0, x1, x2, HI\t", "m=Scsel|l=N|d=N|o=R:x,0,-,-,-,-;R:x,1,-,-,-,-;R:x,2,-,-,-,-;C:HI|c=N", KEY_CONDSPACE),
     ("ldr x0, [x1, x2, sxtx #3]", "m=Sldr|l=N|d=N|o=R:x,0,-,-,-,-;M:-,x,1,x~2~sxtx~3,8,0,-|c=N", KEY_SXTX),
-    (".word foo // a,!)", "m=N|l=N|d=Sword|o=|c=N", "directive-comment-with-comma"),
+    ("ldr x0, [sp, x2, SXTX 1]!", "m=Sldr|l=N|d=N|o=R:x,0,-,-,-,-;M:-,x,sp,x~2~sxtx~1,2,1,-|c=N", KEY_SXTX),
+    (".word foo // a,!)", "m=N|l=N|d=Sword|o=|c=N", KEY_DIRCOMMENT),
+    (".set x, y // c,", "m=N|l=N|d=Sset|o=|c=N", KEY_DIRCOMMENT),
 ]
 
 
 def run_witnesses(ctx, p):
+    """replays the witness lines; returns the configuration of the tree under test: a repair counts as present
+    when every witness line of its defect is parsed as written (the model of exactly that configuration is then
+    held against the implementation by all correspondence shards)"""
+    cfg = {k: True for k in L.FIX_FLAGS}
     for line, expected, key in WITNESSES:
         got = L.real_parse(p, line)
         ctx.count()
         if got != expected:
+            cfg[FIX_OF_KEY[key]] = False
             ctx.violation(key, "parse_line(%r) returned %s, the line says %s" % (line, got, expected),
                           {"line": line, "expected": expected})
+    return cfg
 
 
 def grammar_digest(p):
@@ -333,16 +355,21 @@ def run(ctx):
     p = parser()
     dig = grammar_digest(p)
     ctx.coverage["grammar_digest"] = dig
-    run_witnesses(ctx, p)
-    run_probes(ctx, p)
+    cfg = run_witnesses(ctx, p)
+    ctx.coverage["configuration"] = dict(cfg)
+    ctx.log("configuration of the tree under test (repairs present, decided on the witness lines): %s -> model %s; "
+            "round-trip theorem instance parse_render_line_fx at this configuration%s"
+            % (", ".join(k for k in L.FIX_FLAGS if cfg[k]) or "none", L.cfg_coq(cfg),
+               " = parse_render_line_full (the whole language of the property, any layout)" if all(cfg.values()) else ""))
+    run_probes(ctx, p, cfg)
     n = ctx.n(2400, 60000)
-    base = run_tree_stream(ctx, p, n)
-    run_malformed(ctx, p, base, ctx.n(800, 12000))
-    run_files(ctx, p, base, ctx.n(60, 400))
+    base = run_tree_stream(ctx, p, n, cfg)
+    run_malformed(ctx, p, base, ctx.n(800, 12000), cfg)
+    run_files(ctx, p, base, ctx.n(60, 400), cfg)
     if ctx.broken() and not [v for v in ctx.violations]:
         # an obligation broke without a concrete failing line: search harder with the model-free oracle
         ctx.log("an obligation is broken: searching with a 10x round-trip budget")
-        extra = gen_cases(ctx, min(10 * n, 60000), p)
+        extra = gen_cases(ctx, min(10 * n, 60000), p, cfg)
         oracle_roundtrip(ctx, extra)
 
 
